@@ -243,3 +243,82 @@ def to_full_precision(rng, g):
     ox = rng.choice([0.0, 0.0, 1e3, 1e6, 1e9, -5e5]) * (1 + rng.random() * 1e-3)
     oy = rng.choice([0.0, 0.0, 1e3, 1e6, 1e9, -5e5]) * (1 + rng.random() * 1e-3)
     return lambda p: (p[0] * s + ox, p[1] * s + oy)
+
+
+# ---------------------------------------------------------------- WKT -> tuple form (2D, the subset to_wkt writes)
+def from_wkt(text):
+    import re
+    toks = re.findall(r'[A-Za-z]+|\(|\)|,|[-+0-9.eE]+', text)
+    pos = [0]
+
+    def peek():
+        return toks[pos[0]] if pos[0] < len(toks) else None
+
+    def take(expect=None):
+        t = toks[pos[0]]; pos[0] += 1
+        if expect is not None and t != expect:
+            raise ValueError('expected %s got %s' % (expect, t))
+        return t
+
+    def num(t):
+        v = float(t)
+        return int(v) if v == int(v) and abs(v) < 1e15 and 'e' not in t.lower() and '.' not in t else v
+
+    def coord():
+        x = num(take()); y = num(take())
+        while peek() not in (',', ')'):
+            take()            # extra ordinates are ignored
+        return (x, y)
+
+    def seq():
+        if peek().upper() == 'EMPTY':
+            take(); return []
+        take('('); out = [coord()]
+        while peek() == ',':
+            take(); out.append(coord())
+        take(')'); return out
+
+    def rings():
+        if peek().upper() == 'EMPTY':
+            take(); return []
+        take('('); out = [seq()]
+        while peek() == ',':
+            take(); out.append(seq())
+        take(')'); return out
+
+    def geom():
+        t = take().upper()
+        while peek() and peek().upper() in ('Z', 'M', 'ZM'):
+            take()
+        if t == 'POINT':
+            c = seq(); return ('Point', c[0] if c else None)
+        if t in ('LINESTRING', 'LINEARRING'):
+            return ('LineString', seq())
+        if t == 'POLYGON':
+            return ('Polygon', rings())
+        if peek().upper() == 'EMPTY':
+            take()
+            return ({'MULTIPOINT': 'MultiPoint', 'MULTILINESTRING': 'MultiLineString', 'MULTIPOLYGON': 'MultiPolygon', 'GEOMETRYCOLLECTION': 'GeometryCollection'}[t], [])
+        take('('); out = []
+        while True:
+            if t == 'MULTIPOINT':
+                if peek().upper() == 'EMPTY':
+                    take(); out.append(('Point', None))
+                elif peek() == '(':
+                    c = seq(); out.append(('Point', c[0] if c else None))
+                else:
+                    out.append(('Point', coord()))
+            elif t == 'MULTILINESTRING':
+                out.append(('LineString', seq()))
+            elif t == 'MULTIPOLYGON':
+                out.append(('Polygon', rings()))
+            elif t == 'GEOMETRYCOLLECTION':
+                out.append(geom())
+            else:
+                raise ValueError(t)
+            if peek() == ',':
+                take(); continue
+            break
+        take(')')
+        return ({'MULTIPOINT': 'MultiPoint', 'MULTILINESTRING': 'MultiLineString', 'MULTIPOLYGON': 'MultiPolygon', 'GEOMETRYCOLLECTION': 'GeometryCollection'}[t], out)
+    return geom()
